@@ -13,6 +13,11 @@ observation (not a claim): solve() ignores the convergence flag of scipy.optimiz
 nf = 6, N3LO exact, charm) it returns a value that is not a fixed point without any error; the bounded inputs use real-world alpha_s(Qref).
   (c) decoupling of the running mass across a matching scale: with m^(nf+1) = m^(nf) zeta(L, a'), a' the decoupled coupling (C16) and L = ln(mu^2/m_h(mu)^2), the RG residual
       d ln m^(nf+1)/dt + gamma_m^(nf+1)(a') vanishes through O(a^3) identically in nf and L (the L^0 term at a^3 to the printed digits of the decimal coefficients).
+  (d) evolve(): executed on ghost couplings (walls = masses x own ratios, a_s and ker_dispatcher opaque) for orders 2-4, upward and downward paths across one, two and three
+      thresholds, in the three calling conventions that occur (ratios only in evolve as in the tests; unit ratios; Couplings built with matching x xif2 as compute() does):
+      the mass path changes patch at m_h^2 x ratio -- the scale at which the decoupling logarithm L = ln(ratio) is written (one defect repaired by a fix commit: the ratios of
+      the coupling were applied twice) -- and m^2(q2_to) = m2_ref prod ker^2 prod zeta(L, a'(xif2 mu^2))^2.  Known finding F29: the code multiplies m^2 by zeta, not zeta^2.
+      The bounded part repeats the crossings with an independent bookkeeping of the mass path (bounded/C18_native.py: own_evolve).
 not covered: the L-independent decoupling constants themselves (literature values); convergence of scipy.optimize.fsolve
 (the returned value is checked to be a fixed point on the sampled inputs only).
 """
@@ -46,12 +51,59 @@ def replay():
     return bool(out), "; ".join(out[:4]) if out else "ker_expanded agrees with the numerically integrated mass RGE to the working order"
 '''
 
+REPLAY_EVOLVE = '''
+def replay():
+    # independent bookkeeping of the mass path: thresholds at m_h^2 x ratio, decoupling factor of the mass squared; kernels and coefficients are the real ones
+    import warnings
+    from eko import msbar_masses
+    from eko.couplings import Couplings
+    from eko.quantities.couplings import CouplingEvolutionMethod, CouplingsInfo
+    from eko.quantities.heavy_quarks import HeavyQuarkMasses, QuarkMassRef, QuarkMassScheme
+    warnings.simplefilter("ignore")
+    def own(m2, q2, sc, masses, ratios, xif2, q2_to, nf, nf_to):
+        T_ = np.array(masses) * np.array(ratios)
+        up = nf_to > nf
+        while nf != nf_to:
+            k = nf - 3 if up else nf - 4
+            wall = T_[k]
+            m2 *= msbar_masses.ker_dispatcher(wall, q2, sc, xif2, nf) ** 2
+            c = msbar_masses.compute_matching_coeffs_up(nf) if up else msbar_masses.compute_matching_coeffs_down(nf - 1)
+            a = sc.a(wall * xif2, nf + 1 if up else nf)[0]
+            L = np.log(ratios[k])
+            m2 *= (1.0 + sum(a**p * L**l * c[p, l] for p in range(1, sc.order[0]) for l in range(p + 1))) ** 2
+            q2, nf = wall, nf + (1 if up else -1)
+        return m2 * msbar_masses.ker_dispatcher(q2_to, q2, sc, xif2, nf) ** 2
+    out = []
+    for order in ((2, 0), (3, 0), (4, 0)):
+        for ratios, xif in (([1.0, 1.0, 1.0], 1.0), ([1.0, 1.5, 1.0], 1.0), ([1.0, 1.0, 1.0], 1.5)):
+            # coupling given with nf = 4 at 3 GeV; the top mass is given at 3 GeV, below the bottom threshold: its running crosses that threshold
+            ci = CouplingsInfo.from_dict(dict(alphas=0.25, alphaem=0.007496, ref=(3.0, 4), em_running=False))
+            vals, scales = [1.5, 4.5, 170.0], [2.0, 4.0, 3.0]
+            mref = HeavyQuarkMasses([QuarkMassRef([v, s]) for v, s in zip(vals, scales)])
+            res = msbar_masses.compute(mref, ci, order, CouplingEvolutionMethod.EXACT, ratios, xif2=xif**2)
+            sc = Couplings(ci, order=order, method=CouplingEvolutionMethod.EXACT, masses=res.tolist(), thresholds_ratios=(np.array(ratios) * xif**2).tolist(), hqm_scheme=QuarkMassScheme.MSBAR)
+            back = own(vals[2] ** 2, scales[2] ** 2, sc, res, ratios, xif**2, res[2], 4, 5)
+            if abs(back / res[2] - 1) > 1e-6:
+                out.append(f"order {order} ratios {ratios} xif {xif}: computed m_t^2 = {res[2]:.8g}, but the running mass evolved from its reference (3 GeV, nf=4) to that scale is {back:.8g} (relative {back/res[2]-1:+.2e})")
+    return bool(out), "; ".join(out[:3]) if out else "compute() agrees with an independent bookkeeping of the mass path"
+'''
+
+
+def chk_equal(a, b):
+    from pyvc import poly as P
+    try:
+        ok, _ = P.prove_zero(T.lift(a) - T.lift(b), P.NFContext())
+        return bool(ok)
+    except Exception:  # noqa: BLE001
+        return False
+
 
 def run(chk):
     from eko import msbar_masses as mm
     from pyvc import bounded
 
     rp = script(REPLAY, kind="mass_rge_oracle")
+    rp_ev = script(REPLAY_EVOLVE, kind="mass_path_oracle")
     chk.under_contract("eko.msbar_masses:compute_matching_coeffs_up", "eko.msbar_masses:ker_expanded", "eko.msbar_masses:ker_dispatcher", "eko.msbar_masses:compute", "eko.msbar_masses:solve", "eko.msbar_masses:evolve")
     chk.trust("C20: beta and gamma_m coefficient functions equal the literature values (generic symbols here)", "BOUNDED part (b): deal run-time contracts over the stated finite input set only")
     chk.uncovered("the L-independent decoupling constants of the running mass (literature values c[2,0], c[3,0])",
@@ -162,6 +214,89 @@ def run(chk):
                    goal="[a^3 L^0] of the RG residual vanishes to the printed digits of the decimal coefficients c[3,1] = 71.7887 + 7.85185 nf", detail=f"residual {val:.3e}")
     chk.eq_array("C18.mass_decoupling.unused_coefficients", np.array([cm[n, l] for n in range(4) for l in range(4) if l > n or n < 2], dtype=object), np.array([Q(0)] * len([1 for n in range(4) for l in range(4) if l > n or n < 2]), dtype=object),
                  fn=fnm, goal="no coefficient below O(a_s^2) or with more logs than the order", replay=rp)
+
+    # ---- (d) evolve(): where the mass path changes patch, and the factor applied there ----------------------------------------------------------------
+    # requires: the coupling object carries walls = heavy masses x its own thresholds ratios (Couplings.__init__); evolve() receives the matching ratios of the mass.
+    # ensures:  the mass path changes patch at  m_h^2 x ratio  (the scale where L = ln(ratio) = ln(mu^2 / m_h^2), i.e. where the decoupling relation (c) is written), and
+    #           m^2(q2_to) = m2_ref x prod_segments ker^2 x prod_crossings zeta(L, a'(mu^2 xif2))^2       (zeta is the factor of the MASS, here its square is evolved)
+    fne = "eko.msbar_masses:evolve"
+    kcalls = []
+
+    class SCd:
+        def __init__(self, masses2, own_ratios, order):
+            self.thresholds_ratios = list(own_ratios)
+            self.atlas = type("GhostAtlas", (), {})()
+            self.atlas.walls = [0] + [m * r for m, r in zip(masses2, own_ratios)] + [mm.np.inf]
+            self.order = order
+
+        def a(self, scale, nf):
+            return (T.app("a_s", T.lift(scale), T.lift(nf)), Q(0))
+
+    skd = mm.ker_dispatcher
+    mm.ker_dispatcher = lambda q2_to, q2_from, sc_, xif2_, nf_: (kcalls.append((q2_to, q2_from, nf_)), T.app("K", T.lift(q2_to), T.lift(q2_from), T.lift(nf_)))[1]
+    masses2 = [Q(9, 4), Q(20), Q(30000)]
+    CONFIGS = [
+        ("ratios_in_evolve_only", (Q(1), Q(1), Q(1)), (Q(2), Q(3, 2), Q(1, 2)), Q(1), (Q(9), 4), (Q(10**6), 6)),
+        ("ratios_in_evolve_only", (Q(1), Q(1), Q(1)), (Q(2), Q(3, 2), Q(1, 2)), Q(1), (Q(10**6), 6), (Q(9), 4)),
+        ("unit_ratios", (Q(1), Q(1), Q(1)), (Q(1), Q(1), Q(1)), Q(1), (Q(9), 4), (Q(1000), 5)),
+        ("as_called_by_compute", (Q(9, 4), Q(27, 8), Q(9, 2)), (Q(1), Q(3, 2), Q(2)), Q(9, 4), (Q(9), 4), (Q(10**6), 6)),        # Couplings ratios = matching x xif2
+        ("as_called_by_compute", (Q(9, 4), Q(27, 8), Q(9, 2)), (Q(1), Q(3, 2), Q(2)), Q(9, 4), (Q(10**6), 6), (Q(3), 3)),
+        ("as_called_by_compute", (Q(3, 2), Q(3, 2), Q(3, 2)), (Q(1), Q(1), Q(1)), Q(3, 2), (Q(9), 4), (Q(1000), 5)),                # xif2 != 1 alone
+    ]
+    m2r = T.var("m2_ref")
+    try:
+        for order in ((2, 0), (3, 0), (4, 0)):
+            for lab, own, tr, xif2v, (q0, nf0), (q1, nf1) in CONFIGS:
+                tag = f"C18.evolve[{lab},order={order[0]},nf={nf0}->{nf1},xif2={xif2v}]"
+                kcalls.clear()
+                try:
+                    got = mm.evolve(m2r, q0, SCd(masses2, own, order), list(tr), xif2v, q1, nf_ref=nf0, nf_to=nf1)
+                except Exception as e:  # noqa: BLE001
+                    chk.fail(f"{tag}.no_exception", f"{type(e).__name__}: {e}", fn=fne, replay=rp_ev)
+                    continue
+                up = nf1 > nf0
+                Tk = [m * r for m, r in zip(masses2, tr)]                       # spec: the mass changes patch at m_h^2 x ratio
+                segs, q, nf = [], q0, nf0
+                while nf != nf1:
+                    wall = Tk[nf - 3] if up else Tk[nf - 4]
+                    segs.append((wall, q, nf))
+                    q, nf = wall, nf + (1 if up else -1)
+                segs.append((q1, q, nf))
+                rec = [(T.lift(a_), T.lift(b_), int(n_)) for a_, b_, n_ in kcalls]
+                want = [(T.lift(a_), T.lift(b_), n_) for a_, b_, n_ in segs if a_ != b_]
+                same = len(rec) == len(want) and all(x[0].n == y[0].n and x[1].n == y[1].n and x[2] == y[2] for x, y in zip(rec, want))
+                chk.ground(f"{tag}.patch_changes_at_mass_times_ratio", same, fn=fne, replay=rp_ev, backend="symbolic-execution",
+                           goal="segments of the mass path: (q2m_ref -> m_h^2 ratio -> ... -> q2_to), each in its own patch",
+                           detail=f"kernel calls (to, from, nf) {[(str(a_), str(b_), n_) for a_, b_, n_ in kcalls]} but the decoupling relation is written at {[(str(a_), str(b_), n_) for a_, b_, n_ in segs]}")
+                # factor structure over the segments the code actually used
+                for power, what in ((2, "decoupling_factor_of_the_mass_squared"),):
+                    exp_ = m2r
+                    for a_, b_, n_ in kcalls:
+                        exp_ = exp_ * T.app("K", T.lift(a_), T.lift(b_), T.lift(n_)) ** 2
+                    crossings = kcalls[:-1] if len(kcalls) == len(segs) else kcalls[: abs(nf1 - nf0)]
+                    zs = []
+                    for (a_, b_, n_) in crossings:
+                        k = n_ - 3 if up else n_ - 4
+                        Lk = mm.np.log(tr[k])
+                        cm_ = mm.compute_matching_coeffs_up(n_) if up else mm.compute_matching_coeffs_down(n_ - 1)
+                        ak = T.app("a_s", T.lift(a_ * xif2v), T.lift(n_ + 1 if up else n_))
+                        z = 1
+                        for pto in range(1, order[0]):
+                            for lp in range(pto + 1):
+                                z = z + ak ** pto * Lk ** lp * cm_[pto, lp]
+                        zs.append(z)
+                    sq, lin = exp_, exp_
+                    for z in zs:
+                        sq, lin = sq * z * z, lin * z
+                    if not zs or order[0] < 3:
+                        chk.eq(f"{tag}.{what}", got, sq, fn=fne, replay=rp_ev, goal="m^2(q2_to) == m2_ref prod ker^2 prod zeta^2")
+                    else:
+                        chk.eq(f"{tag}.{what}", got, sq, fn=fne, replay=rp_ev, goal="m^2(q2_to) == m2_ref prod ker^2 prod zeta^2 (zeta: decoupling factor of the mass)")
+                        ok_lin = chk_equal(got, lin) or chk_equal(got, sq)
+                        chk.ground(f"{tag}.{what}_or_the_recorded_linear_factor", ok_lin, fn=fne, replay=rp_ev, backend="poly-NF",
+                                   goal="pins known finding F29: the only admitted deviation is zeta instead of zeta^2")
+    finally:
+        mm.ker_dispatcher = skd
 
     # ---- (b) bounded ----------------------------------------------------------------------------------------------------------------------------------
     n = bounded.run_native(chk, "C18_native.py", backend="deal-runtime(bounded)")
